@@ -219,6 +219,16 @@ def raises(ctx):
                 isinstance(node.value, ast.Call) and isinstance(node.value.func, ast.Attribute) and node.value.func.attr in ('split', 'rsplit', 'splitlines') and \
                 (not node.value.args or (isinstance(node.value.args[0], ast.Constant) and node.value.args[0].value is None)):
             return 'an element of str.split() without separator (IndexError: the list is empty for blank text)'
+        if isinstance(node, ast.Subscript) and isinstance(node.ctx, ast.Load) and isinstance(node.value, ast.Attribute) and node.value.attr == '__dict__':
+            return 'an_entry of <instance>.__dict__ (KeyError when the attribute is not stored under exactly that spelling)'
+        return None
+
+    def obj_attr(node):
+        '''(object, attribute name) texts of a construct that needs the attribute to be stored on the object'''
+        if isinstance(node, ast.Call) and dotted(node.func) == 'delattr' and len(node.args) == 2:
+            return src(node.args[0]), src(node.args[1])
+        if isinstance(node, ast.Subscript) and isinstance(node.value, ast.Attribute) and node.value.attr == '__dict__':
+            return src(node.value.value), src(node.slice)
         return None
     n_impl = 0
     in_action = [False]
@@ -242,15 +252,15 @@ def raises(ctx):
                 par_ = parents_[id(cur)]
                 if isinstance(par_, ast.Try) and cur in par_.body and par_.handlers:
                     guarded = True
-                if isinstance(par_, ast.If) and cur in par_.body and isinstance(node, ast.Call) and dotted(node.func) == 'delattr':
+                if isinstance(par_, (ast.If, ast.IfExp)) and (cur in par_.body if isinstance(par_, ast.If) else cur is par_.body) and obj_attr(node):
                     # if <name> in <obj>.__dict__ / hasattr(<obj>, <name>): the attribute is there
-                    o_, a_ = src(node.args[0]), src(node.args[1])
+                    o_, a_ = obj_attr(node)
                     tests_ = par_.test.values if isinstance(par_.test, ast.BoolOp) and isinstance(par_.test.op, ast.And) else [par_.test]
                     if any(src(t_) in ('%s in %s.__dict__' % (a_, o_), 'hasattr(%s, %s)' % (o_, a_), '%s in vars(%s)' % (a_, o_)) for t_ in tests_):
                         guarded = True
-                if isinstance(node, ast.Call) and dotted(node.func) == 'delattr' and len(node.args) == 2:
+                if obj_attr(node):
                     # guard form: `if <name> not in <obj>.__dict__: continue` before the statement in the same block
-                    o_, a_ = src(node.args[0]), src(node.args[1])
+                    o_, a_ = obj_attr(node)
                     for fld_ in ('body', 'orelse', 'finalbody'):
                         blk_ = getattr(par_, fld_, None)
                         if isinstance(blk_, list) and cur in blk_:
